@@ -250,11 +250,16 @@ def reference_model(rep, rec, path):
         rep.add('ref_paths', len(f['exits']))
         rep.add('model_transitions', f['steps'])
         rep.mark('model_states', (name, fname))
-        for kind, line, led, detail in f['exits']:
+        for kind, line, led, detail, conds in f['exits']:
             rep.add('evaluations')
             if kind == 'RaiseStatNode' and detail in DEFENSIVE_RAISES:
                 rep.add('defensive_exits')
                 continue
+            if led.get('<nullderef>'):
+                rec('null-release:%s:%s' % (name, fname),
+                    '%s: a reference primitive is applied to a pointer that the same path has '
+                    'already set to NULL (exit at line %s)' % (where, line),
+                    dict(file=name, function=fname, cls=f['cls'], exit=kind, line=line))
             cvars = set(f.get('container_vars', ()))
             scalar = {k: v for k, v in led.items()
                       if '[]' not in k and not k.startswith('<') and
@@ -262,29 +267,47 @@ def reference_model(rep, rec, path):
             container = {k: v for k, v in led.items() if k not in scalar and v}
             if container:
                 rep.mark('container_mediated', where)
-            imb = {k: v for k, v in scalar.items() if v}
+            field = {k: v for k, v in scalar.items() if k.endswith('._ref')}
+            nodes_ = {k: v for k, v in scalar.items() if not k.endswith('._ref')}
+            imb = {k: v for k, v in nodes_.items() if v}
+            tot = sum(nodes_.values())
+            ftot = sum(field.values())
             case = dict(file=name, function=fname, cls=f['cls'], exit=kind, line=line,
-                        ledger=imb)
-            if fname in TRANSFER:
-                want = TRANSFER[fname]
-                tot = sum(imb.values())
-                if fname in ('__dealloc__', '_test_call_dealloc'):
-                    ok = tot in (want, 0) and (kind != 'RaiseStatNode')
-                    if kind == 'RaiseStatNode':
-                        ok = tot == 0
-                    # the non-owning path (reference already given back) returns early
-                    if tot == 0 and kind == 'fall':
-                        ok = False
-                elif fname in ('_decref', 'decref'):
-                    # a handle whose lower bound is 0 is refused (raise) or ignored
-                    ok = tot == want or (tot == 0 and kind != 'fall')
-                else:
-                    ok = tot == want or (tot == 0 and kind == 'RaiseStatNode')
+                        ledger={k: v for k, v in scalar.items() if v})
+            is_transfer = fname in TRANSFER and not (
+                fname in ('__dealloc__', 'init', '__cinit__') and f['cls'] not in ('Function', None))
+            if is_transfer or f.get('touches_ref_field'):
                 rep.add('nontrivial')
+                if kind == 'RaiseStatNode':
+                    # a refused call must not have moved anything
+                    if tot or ftot:
+                        rec('transfer:%s:%s' % (name, fname),
+                            '%s moves references (%+d library, %+d lower bound) on an exit that '
+                            'raises' % (where, tot, ftot), case)
+                    continue
+                direct = any(v and '_direct' in k for k, v in conds.items())
+                want = TRANSFER.get(fname) if is_transfer else None
+                ok = True
+                why = ''
+                if f.get('touches_ref_field') and not direct and fname not in ('init', '__cinit__'):
+                    # the wrapper's own lower bound must move together with the library count
+                    if tot != ftot:
+                        ok, why = False, ('library references %+d but the lower bound `_ref` '
+                                          '%+d' % (tot, ftot))
+                if fname in ('init', '__cinit__'):
+                    if tot != 1 or (f.get('touches_ref_field') and ftot != 1):
+                        ok, why = False, 'the constructor must take exactly one reference'
+                elif fname in ('__dealloc__', '_test_call_dealloc') and is_transfer:
+                    if tot not in (-1, 0) or (tot == 0 and kind == 'fall'):
+                        ok, why = False, 'disposal must give back exactly one reference'
+                elif want is not None:
+                    if tot != want and not (tot == 0 and kind != 'fall'):
+                        ok, why = False, 'expected %+d' % want
+                if direct and fname in ('decref', '_decref') and tot != -1:
+                    ok, why = False, 'the direct form must release exactly one reference'
                 if not ok:
                     rec('transfer:%s:%s' % (name, fname),
-                        '%s moves %+d references on an exit where exactly %+d is expected' % (
-                            where, tot, want), case)
+                        '%s: %s (exit at line %s)' % (where, why, line), case)
                 continue
             if imb:
                 rec('imbalance:%s:%s' % (name, fname),
